@@ -89,6 +89,9 @@ pub struct NetCfg {
     /// 0 FIN rides with the last bytes, 1 drawn, 2 always its own event
     pub fin_mode: u8,
     pub coalesce_reads: bool,
+    /// receive buffers handed to h3 may have two segments (`quic::RecvStream::Buf` is any `Buf`: a chain, a ring
+    /// buffer that wraps): one read in two then is segmented at a drawn point
+    pub segmented_reads: bool,
     pub in_order_accept: bool,
     /// 0 nothing, 1 implicit RESET(0), 2 implicit FIN when a send handle is dropped unfinished
     pub drop_send: u8,
@@ -107,6 +110,7 @@ impl Default for NetCfg {
             write_partial: false,
             fin_mode: 0,
             coalesce_reads: false,
+            segmented_reads: false,
             in_order_accept: true,
             drop_send: 0,
             drop_recv_stops: false,
@@ -125,6 +129,7 @@ impl NetCfg {
             write_partial: draw(2) == 1,
             fin_mode: draw(3) as u8,
             coalesce_reads: draw(4) == 1,
+            segmented_reads: draw(3) == 1,
             in_order_accept: draw(3) != 1,
             drop_send: draw(3) as u8,
             drop_recv_stops: draw(2) == 1,
@@ -1048,10 +1053,11 @@ impl Drop for SimSend {
 }
 
 impl quic::RecvStream for SimRecv {
-    type Buf = Bytes;
-    fn poll_data(&mut self, cx: &mut Context<'_>) -> Poll<Result<Option<Bytes>, StreamErrorIncoming>> {
+    type Buf = SimBuf;
+    fn poll_data(&mut self, cx: &mut Context<'_>) -> Poll<Result<Option<SimBuf>, StreamErrorIncoming>> {
         let mut n = self.net.lock().unwrap();
         let coalesce = n.cfg.coalesce_reads;
+        let segmented = n.cfg.segmented_reads;
         let fault = n.sides[self.side as usize].fault.clone();
         let d = n.dirs.get_mut(&(self.id, 1 - self.side)).unwrap();
         if d.inject_read_err {
@@ -1072,7 +1078,12 @@ impl quic::RecvStream for SimRecv {
             };
             d.consumed += b.len();
             obs::ev("read", self.id, b.len() as u64);
-            return Poll::Ready(Ok(Some(b)));
+            if segmented && b.len() >= 2 && draw(2) == 1 {
+                let cut = 1 + draw_usize(b.len() - 1);
+                obs::count("net.read_in_two_segments");
+                return Poll::Ready(Ok(Some(SimBuf::multi(&b, &[cut]))));
+            }
+            return Poll::Ready(Ok(Some(SimBuf::One(b))));
         }
         if let Some(f) = &d.read_conn_err {
             obs::count("fault.connection_error_reported_on_a_stream_first");
@@ -1120,8 +1131,8 @@ impl Drop for SimRecv {
 }
 
 impl quic::RecvStream for SimBidi {
-    type Buf = Bytes;
-    fn poll_data(&mut self, cx: &mut Context<'_>) -> Poll<Result<Option<Bytes>, StreamErrorIncoming>> {
+    type Buf = SimBuf;
+    fn poll_data(&mut self, cx: &mut Context<'_>) -> Poll<Result<Option<SimBuf>, StreamErrorIncoming>> {
         self.recv.poll_data(cx)
     }
     fn stop_sending(&mut self, c: u64) {
